@@ -138,7 +138,17 @@ Proof.
 Qed.
 
 (* ---- sums ---- *)
-Require Import Btauto.
+Ltac bt_term t :=
+  match t with
+  | true => fail
+  | false => fail
+  | andb ?a ?b => first [bt_term a | bt_term b]
+  | orb ?a ?b => first [bt_term a | bt_term b]
+  | negb ?a => bt_term a
+  | _ => destruct t
+  end.
+Ltac bt_step := match goal with |- ?l = ?r => first [bt_term l | bt_term r] end; cbn [andb orb negb].
+Ltac btaut := repeat bt_step; reflexivity.
 
 Lemma m_sum_w_spec bnd b wts r ln :
   num_ok bnd = true -> body_ok b = true -> forallb num_ok wts = true -> length wts = length (b_atoms b) -> delim r ->
@@ -168,7 +178,7 @@ Proof.
     { rewrite <- Hlen. apply weights_spec; [apply fuel_nums; assumption | assumption | assumption]. }
     intros _ ln5. cbv beta iota.
     rewrite bound_max_eq in Hbl. rewrite wrap32s_id by lia. apply spec2_ret.
-  - rewrite neg_check_sum_eq, bound_max_eq. cbn [negb orb]. change sm_umax with UINT_MAX. change (weight_in bnd) with (snd bnd <=? INT_MAX). btauto.
+  - rewrite neg_check_sum_eq, bound_max_eq. cbn [negb orb]. change sm_umax with UINT_MAX. change (weight_in bnd) with (snd bnd <=? INT_MAX). btaut.
 Qed.
 
 Lemma m_sum_c_spec bnd b r ln :
@@ -196,7 +206,7 @@ Proof.
     { apply atoms_spec; [apply fuel_nums; assumption | assumption | assumption]. }
     intros _ ln4. cbv beta iota.
     rewrite bound_max_eq in Hbl. rewrite wrap32s_id by lia. apply spec2_ret.
-  - rewrite neg_check_sum_eq, bound_max_eq. cbn [negb orb]. change sm_umax with UINT_MAX. change (weight_in bnd) with (snd bnd <=? INT_MAX). btauto.
+  - rewrite neg_check_sum_eq, bound_max_eq. cbn [negb orb]. change sm_umax with UINT_MAX. change (weight_in bnd) with (snd bnd <=? INT_MAX). btaut.
 Qed.
 
 (* ---- one rule ---- *)
@@ -225,7 +235,7 @@ Proof.
       intros _ ln1. cbv beta iota.
       eapply spec2_bind. { apply m_body_spec; assumption. }
       intros _ ln2. cbv beta iota. apply spec2_ret.
-    + btauto.
+    + btaut.
   - (* choice / disjunctive *)
     bsplit. destruct (body_ok_inv b ltac:(assumption)) as (Hl & Hn & Ha).
     assert (E : read_rule o prio (rule_type (RMulti ch tw nw hs b)) = fun s =>
@@ -243,7 +253,7 @@ Proof.
       intros _ ln2. cbv beta iota.
       eapply spec2_bind. { apply m_body_spec; assumption. }
       intros _ ln3. cbv beta iota. apply spec2_ret.
-    + unfold atom_in at 1. cbn [snd]. btauto.
+    + unfold atom_in at 1. cbn [snd]. btaut.
   - (* cardinality *)
     bsplit. destruct (num_ok_inv h ltac:(assumption)) as (_ & Hw & Hv). destruct (body_ok_inv b ltac:(assumption)) as (Hl & Hn & Ha).
     unfold read_rule. rt_reduce. rewrite <- !app_assoc.
@@ -252,7 +262,7 @@ Proof.
       intros _ ln1. cbv beta iota.
       eapply spec2_bind. { apply m_sum_c_spec; assumption. }
       intros _ ln2. cbv beta iota. apply spec2_ret.
-    + btauto.
+    + btaut.
   - (* weight *)
     bsplit. destruct (num_ok_inv h ltac:(assumption)) as (_ & Hw & Hv).
     unfold read_rule. rt_reduce. rewrite <- !app_assoc.
@@ -261,20 +271,20 @@ Proof.
       intros _ ln1. cbv beta iota.
       eapply spec2_bind. { apply m_sum_w_spec; try assumption. now apply Nat.eqb_eq. }
       intros _ ln2. cbv beta iota. apply spec2_ret.
-    + btauto.
+    + btaut.
   - (* optimize *)
     bsplit. unfold read_rule. rt_reduce. rewrite <- !app_assoc.
     eapply spec2_eq; cycle 1.
     + eapply spec2_bind. { apply m_sum_w_spec; try assumption. now apply Nat.eqb_eq. }
       intros _ ln2. cbv beta iota. apply spec2_ret.
-    + btauto.
+    + btaut.
   - (* 90 *)
     destruct (num_ok_inv z Hok) as (_ & Hw & Hv).
     unfold read_rule. rt_reduce. destruct (claspExt o); cbn [andb]; [|eexists; reflexivity].
     eapply spec2_eq; cycle 1.
     + eapply spec2_bind. { apply m_pos_spec; [apply umax_le | assumption | assumption | assumption]. }
       intros _ ln1. cbv beta iota. apply spec2_require. intros _. apply spec2_ret.
-    + unfold count_in. change sm_umax with UINT_MAX. btauto.
+    + unfold count_in. change sm_umax with UINT_MAX. btaut.
   - (* 91 *)
     bsplit. destruct (num_ok_inv a ltac:(assumption)) as (_ & Hw & Hv). destruct (num_ok_inv v ltac:(assumption)) as (_ & Hw2 & Hv2).
     unfold read_rule. rt_reduce. destruct (claspExt o); cbn [andb]; [|eexists; reflexivity].
